@@ -14,6 +14,8 @@ import (
 	"math/big"
 	"testing"
 
+	"github.com/consensys/gnark-crypto/ecc/bls12-381/bandersnatch"
+
 	"verifharness/lib/ev"
 )
 
@@ -50,6 +52,29 @@ func teAltersHalfGCD(strategy string) bool {
 		return true
 	}
 	return false
+}
+
+// twistededwards ScalarMul on Bandersnatch with the identity point: the scalarMulHint calls gnark-crypto's
+// bandersnatch.PointAffine.ScalarMultiplication, whose GLV path returns the off-curve (0,0) for the identity
+// and a scalar above the small-window range: the valid input is unsatisfiable (root cause in gnark-crypto).
+const SigBandersnatchIdentity = "bandersnatch-scalarmul-identity-offcurve-hint"
+
+// bandersnatchNativeOffCurve is the exact shape: gnark-crypto's own result for (p, s) is not on the curve.
+func bandersnatchNativeOffCurve(p point, s *big.Int) bool {
+	var a, r bandersnatch.PointAffine
+	a.X.SetBigInt(p.X)
+	a.Y.SetBigInt(p.Y)
+	r.ScalarMultiplication(&a, s)
+	return !r.IsOnCurve()
+}
+
+func excludedTEPoint(curve, op string, p Pt, scalars []string) string {
+	if _, ok := open(SigBandersnatchIdentity); ok && curve == "bandersnatch" && op == "ScalarMul" && len(scalars) == 1 {
+		if q := p.point(); teCurves[curve].onCurve(q) && bandersnatchNativeOffCurve(q, unhx(scalars[0])) {
+			return SigBandersnatchIdentity
+		}
+	}
+	return ""
 }
 
 func excludedTE(curve, op string, scalars []string) string {
@@ -310,6 +335,9 @@ func probes() []probe {
 	// same root cause: decomposition of s+1 with the overflow counter k solved in the native field => [s+1]P accepted
 	teb := TEAdvCase{Curve: "bn254", P: tea.P, S: tea.S, Claim: "next", Strategy: "free-k"}
 	ps = append(ps, probe{SigTEZeroSubscalars, "te-adv", teb, func() ev.Outcome { return runTEAdv(teb) }})
+	// Bandersnatch ScalarMul(identity, large scalar)
+	tb := TECase{Curve: "bandersnatch", Op: "ScalarMul", Points: []Pt{teIdentity().pt()}, Scalars: []string{"deadbeefcafebabe1234567890abcdef1234567890abcdef"}}
+	ps = append(ps, probe{SigBandersnatchIdentity, "te", tb, func() ev.Outcome { return runTE(tb) }})
 	// twisted Edwards ScalarMul(P, 0)
 	te := TECase{Curve: "bn254", Op: "ScalarMul", Points: []Pt{teCurves["bn254"].derive("probe").pt()}, Scalars: []string{"0"}}
 	ps = append(ps, probe{SigTEZeroScalar, "te", te, func() ev.Outcome { return runTE(te) }})
@@ -322,6 +350,9 @@ func TestKnownFindingProbes(t *testing.T) {
 	t.Parallel()
 	rec := ev.Get(ID)
 	rec.SetRule(rule)
+	if !firstShard() {
+		return
+	}
 	for _, p := range probes() {
 		o := p.run()
 		kf, isOpen := open(p.sig)
